@@ -79,7 +79,7 @@ def mutate(text, rnd, other_text=None):
         ids = [j for j in sig if kind_of(toks[j]) == 'id' and toks[j][0].isupper()]
         if ids:
             i = rnd.choice(ids)
-        toks[i] = rnd.choice(TYPES + ['Nope', 'route', 'x.Y'])
+        toks[i] = rnd.choice(TYPES + ['Nope', 'route', 'x.Y', '_', '__', 'a-b'])
     elif e in ('indent_line', 'indent_block'):
         nls = [j for j in sig if kind_of(toks[j]) == 'nl']
         if nls:
